@@ -250,6 +250,15 @@ impl Prop for P {
             if case.extra_inputs {
                 input.push(123.0);
             }
+            {
+                // guard-page placement of the variable slice (point evaluator)
+                let g = crate::guard::Guarded::new(&input, true);
+                if !input.is_empty() {
+                    let _ = pe
+                        .eval(&tape_p, &g)
+                        .map_err(|e| Fail::new("point-eval-error", format!("{e:?}")))?;
+                }
+            }
             let (out, _) = pe
                 .eval(&tape_p, &input)
                 .map_err(|e| Fail::new("point-eval-error", format!("{e:?}")))?;
@@ -332,6 +341,34 @@ impl Prop for P {
             }
             let outv: Vec<Vec<f32>> =
                 (0..roots.len()).map(|k| out[k].to_vec()).collect();
+            // bounds clause: the same evaluation with every input slice flush
+            // against a PROT_NONE page (end-flush, then start-flush).  A load
+            // or store outside the caller's slices faults; the parent reports
+            // the dead worker with this case.
+            if !cols.is_empty() && (len % 2 == 1 || len < 9) {
+                for at_end in [true, false] {
+                    let g: Vec<crate::guard::Guarded> = cols
+                        .iter()
+                        .map(|c| crate::guard::Guarded::new(c, at_end))
+                        .collect();
+                    let o2 = se
+                        .eval(&tape_s, &g)
+                        .map_err(|e| Fail::new("slice-eval-error", format!("{e:?}")))?;
+                    cx.ev.count("guard_page_evaluations");
+                    for k in 0..roots.len() {
+                        for i in 0..len {
+                            if !same(o2[k][i], outv[k][i]) {
+                                fail!(
+                                    "guarded-inputs-change-result",
+                                    "len {len}: output {k} sample {i} is {} with guard-page inputs, {} with ordinary vectors",
+                                    fl_to_string(o2[k][i]),
+                                    fl_to_string(outv[k][i])
+                                );
+                            }
+                        }
+                    }
+                }
+            }
             let vout = vse.eval(&vtape_s, &cols).unwrap();
             for i in 0..len {
                 if all_nodes {
@@ -402,7 +439,9 @@ impl Prop for P {
          the JIT result must equal the reference meaning of the opcode applied to the JIT's own operand values \
          (bit-identical, NaN=NaN, min/max of two zeros may differ in sign); (2) every output equals the interpreter on \
          the same tape unless a reference-tainted node (min/max tie of opposite zeros, hash of a NaN) is upstream; (3) \
-         exactly output_count arrays of exactly n samples. Non-trivial = (tape has more than 12 slots, or a libm call with \
+         exactly output_count arrays of exactly n samples; (4) every slice evaluation is repeated with each input slice \
+         mapped flush against a PROT_NONE page, at its end and at its start (an access outside the caller's slices kills the \
+         worker, which the parent reports with the case). Non-trivial = (tape has more than 12 slots, or a libm call with \
          other live slots) and a slice length that is not a multiple of 8."
     }
 
@@ -410,7 +449,7 @@ impl Prop for P {
         vec![
             "x86_64 only (the aarch64 assembler in the anchors is not exercised on this host)",
             "host libm is the same function for generated code and interpreter",
-            "bounds clause (no access outside the caller's slices) is covered by the guard-page mode of the thorough tier only",
+            "bounds clause: every slice evaluation is repeated with the input slices placed flush against PROT_NONE pages (end-flush and start-flush); outputs are evaluator-owned vectors",
         ]
     }
 }
